@@ -12,6 +12,12 @@ Definition gen_cram_block (m : mode) (cmd : text) (conts : list text) (lines : l
 Definition gen_cram_doc (m : mode) (title : option text) (cmd : text) (conts : list text) (lines : list (list N)) (code : N) : list block :=
   (match title with Some t => [BTitle t] | None => [] end) ++ [gen_cram_block m cmd conts lines code].
 
+(* .. with the guards of the generator (what the implementation writes; equal to the above whenever no guard applies,
+   GenBlockProofs.gen_cram_doc_g_same) *)
+Definition gen_cram_doc_g (m : mode) (title : option text) (cmd : text) (conts : list text) (lines : list (list N)) (code : N) : list block :=
+  (match title with Some t => [BTitle t] | None => [] end)
+  ++ [BTest cmd conts (map BExp (guarded_lines true m lines) ++ (if code =? 0 then [] else [BCode (dec code)]))].
+
 (* the same test in Markdown format (MarkdownTestCaseGenerator): `# title` and a blank line when there is a title, then a scrut
    block whose fence is one backtick longer than the longest run of backticks that starts a line of the body (at least three) *)
 Definition gen_body (m : mode) (lines : list (list N)) (code : N) : list bline :=
@@ -21,3 +27,8 @@ Definition md_block_text (cmd : text) (conts : list text) (body : list bline) : 
 Definition gen_md_doc (m : mode) (title : option text) (cmd : text) (conts : list text) (lines : list (list N)) (code : N) : list elem :=
   (match title with Some t => [EHeading 1 t; EBlank] | None => [] end)
   ++ [EScrut (S (max_bt 2 (md_block_text cmd conts (gen_body m lines code)))) None [] [] (Some (cmd, conts, gen_body m lines code)) []].
+Definition gen_body_g (m : mode) (lines : list (list N)) (code : N) : list bline :=
+  map BExp (guarded_lines true m lines) ++ (if code =? 0 then [] else [BCode (dec code)]).
+Definition gen_md_doc_g (m : mode) (cfg : option text) (title : option text) (cmd : text) (conts : list text) (lines : list (list N)) (code : N) : list elem :=
+  (match title with Some t => [EHeading 1 t; EBlank] | None => [] end)
+  ++ [EScrut (S (max_bt 2 (md_block_text cmd conts (gen_body_g m lines code)))) cfg [] [] (Some (cmd, conts, gen_body_g m lines code)) []].
